@@ -12,8 +12,18 @@ from props import register
 def pred_game(rng, kind=None, stratum=None, n=None, maxsize=8):
     kind = kind or rng.choice(KINDS)
     beta, kappa, tau = gen_config(rng)
-    stratum = stratum or rng.choice(["typical", "typical", "wide", "corners", "mismatch", "identical", "equalsize", "tiny-sigma"])
-    if stratum == "tiny-sigma":
+    stratum = stratum or rng.choice(["typical", "typical", "wide", "corners", "mismatch", "identical", "equalsize", "tiny-sigma", "equal-ordinal"])
+    if stratum == "equal-ordinal":
+        # teams whose players have slot-wise equal ordinals mu - 3 sigma but different (mu, sigma), exactly representable
+        n = n or rng.randint(3, 5)
+        sz = rng.randint(1, 2)
+        base = [(float(rng.randint(20, 30)), float(rng.randint(2, 8))) for _ in range(sz)]
+        teams = []
+        for i in range(n):
+            d = float(rng.choice([0, 1, 2, -1]))
+            teams.append([(m + 3 * d, s + d) for (m, s) in base] if i < 3 else [(float(rng.randint(10, 40)), float(rng.randint(1, 9))) for _ in range(sz)])
+        beta = core.DEFAULTS["beta"]
+    elif stratum == "tiny-sigma":
         n = n or rng.randint(2, 4)
         teams = [[(rng.gauss(25, 2) * beta / core.DEFAULTS["beta"], 1e-4 * beta) for _ in range(rng.randint(1, 2))] for _ in range(n)]
     else:
